@@ -160,7 +160,7 @@ def run_derive(c, res):
     a0, a1 = np.array(d0.view(np.ndarray), dtype=float), np.array(d1.view(np.ndarray), dtype=float)
     an = np.array(dn.view(np.ndarray), dtype=float)
     for ch in range(3):
-        for ovr in ({}, {'T': 5000.0}, {'M': 5.5}, {'W': 0.75}, {'T': 300.0, 'M': 3.0}):
+        for ovr in ({}, {'T': 5000.0}, {'M': 5.5}, {'W': 0.75}, {'T': 300.0, 'M': 3.0}, {'W': 0.0}, {'W': 0}, {'T': 1.0}, {'M': 0.3}):
             if cont == 'fcs':
                 data, cols, rng = d0, [a0[:, ch]], [ranges[ch] - 1]
                 chan = ch
